@@ -22,6 +22,7 @@ def actText : Act → String
   | .pause => "y"
   | .gstep g => s!"g{g}"
   | .gstepAw g => s!"G{g}"
+  | .resumed i => s!"a{i}!"
 
 def labelText : Label → String
   | .did a => actText a
@@ -35,6 +36,8 @@ def tokText : Tok → String
   | .cb i => s!"cb{i}"
   | .alloc c n _ => s!"a:{catText c}+{n}"
   | .free c n => s!"f:{catText c}-{n}"
+  | .thrown (some j) _ => s!"a:exception+1 c{j}:caught"
+  | .thrown none _ => "a:exception+1 m:caught"
 
 def outcomeText : Outcome → String
   | .none => "pending"
@@ -79,6 +82,7 @@ def headOf (s : State) : Op → String
   | .gen g _ _ => if (s.gens g).exist then "skip" else "ok"
   | .gs g _ =>
       if (s.gens g).exist then (match (genStep (s.gens g)).2 with | some v => s!"v:{v}" | none => "done") else "skip"
+  | .gr g => if (s.gens g).exist then s!"items={genLeft (s.gens g)}" else "skip"
   | .gd g => if (s.gens g).exist then "ok" else "skip"
   | .fin => "left"
 
@@ -168,6 +172,8 @@ def parseOp (ws : List String) : Option Op :=
       | _, _, _ => none
   | ["gs", g, "n"] => (natOf g maxId).map (fun g => Op.gs g false)
   | ["gs", g, "f"] => (natOf g maxId).map (fun g => Op.gs g true)
+  | ["gs", g, "b"] => (natOf g maxId).map (fun g => Op.gs g false)   -- `begin() != end()`: begin() is next() converted to bool
+  | ["gs", g, "r"] => (natOf g maxId).map .gr
   | ["gd", g] => (natOf g maxId).map .gd
   | _ => none
 
